@@ -120,7 +120,26 @@ func NewSess(prefix string) *Sess {
 		touch: map[*vkit.T]map[string]bool{}, Addressable: map[string]map[string]bool{}, StrictWrites: true}
 }
 
-func (s *Sess) Close() { os.RemoveAll(s.Root) }
+// startDir is the working directory the test binary was started in.
+var startDir, _ = os.Getwd()
+
+// NewSessBelowStartDir is NewSess with the snapshot tree below the directory the process
+// was started in (where a package's snapshots normally are).
+func NewSessBelowStartDir(prefix string) *Sess {
+	s := NewSess(prefix)
+	os.RemoveAll(s.Root)
+	d, err := os.MkdirTemp(startDir, "verif-"+prefix+"-")
+	if err != nil {
+		panic(err)
+	}
+	s.Root = d
+	return s
+}
+
+func (s *Sess) Close() {
+	os.Chdir(startDir)
+	os.RemoveAll(s.Root)
+}
 
 // NewProcess simulates the start of a fresh test process.
 func (s *Sess) NewProcess(m vkit.Mode, noColor bool) {
